@@ -88,7 +88,12 @@ func (r *c12Run) Handle(e timing.Event) error {
 }
 
 func VerifC12_Scenario() {
-	f := c12Freqs[verifrt.Choice("freq", len(c12Freqs))]
+	k := 1 + verifrt.Choice("stimuli", verifrt.Bound("stimuli", 2, 3))
+	nf := len(c12Freqs)
+	if k == 3 {
+		nf = 2 // three stimuli only with 1 GHz and 3 Hz (all four frequencies ran past 25 minutes)
+	}
+	f := c12Freqs[verifrt.Choice("freq", nf)]
 	r := &c12Run{e: timing.NewSerialEngine(), budget: 2}
 	r.period = uint64(f.Period())
 	if verifrt.Choice("secondary", 2) == 1 {
@@ -97,7 +102,6 @@ func VerifC12_Scenario() {
 		r.tc = NewTickingComponent("Comp", r.e, f, r)
 	}
 	r.e.RegisterHandler("stim", r)
-	k := 1 + verifrt.Choice("stimuli", verifrt.Bound("stimuli", 2, 3))
 	for i := 0; i < k; i++ {
 		t := verifrt.Uint64Range("t", 0, 1<<42)
 		r.e.Schedule(c12Stim{t: timing.VTimeInPicoSec(t), kind: verifrt.Choice("kind", 4)})
